@@ -463,7 +463,6 @@ class HierarchicalGaussianMixture:
                     n_components=1,
                     covariance_type=self.covariance_type,
                     n_init=self.n_init,
-                    random_state=42,
                 )
                 parent_gmm.fit(data, sample_weight=weights)
                 parent_bic = parent_gmm.bic(data)
@@ -472,7 +471,6 @@ class HierarchicalGaussianMixture:
                     n_components=2,
                     covariance_type=self.covariance_type,
                     n_init=self.n_init,
-                    random_state=42,
                 )
                 child_gmm.fit(data, sample_weight=weights)
                 child_bic = child_gmm.bic(data)
@@ -533,7 +531,6 @@ class HierarchicalGaussianMixture:
                     n_components=1,
                     covariance_type=self.covariance_type,
                     n_init=self.n_init,
-                    random_state=42,
                 )
                 gmm.fit(data, sample_weight=weights)
                 center = gmm.means_[0]
